@@ -7,6 +7,7 @@ from .. import paths
 from ..core import FUNC, call_attr, calls_in, const, dotted, is_const, kwarg, norm, text, walk_local
 
 EXPLANATION = [
+    "C15.namespace-resolution: no accessor of JsonKeyStore other than load() indexes the database by self.namespace: all of them work on the key map load() resolved (which may be the file's only namespace adopted by the default store), so get / get_all / update / delete agree.",
     'C15.one-shot: no name bound to a generator expression or to filter() / map() / zip() / reversed() / enumerate() is read in more than one consuming position or inside a loop that evaluates it repeatedly: such an iterator is empty after its first walk.',
     'C15.walrus: no assignment expression in bumble.keys binds the result of a comparison (`(t := x is not None)`): optional fields read from the file keep their stored value.',
     'C15.zero-valid: the optional integer-valued fields of the stored key objects (address_type, ediv) are tested for presence with `is None` everywhere in keys / device / smp, never by truthiness or `x or default`: address type 0 (public) and EDIV 0 read back as stored.',
@@ -261,7 +262,38 @@ def one_shot_rule(ctx):
     one_shot_iterators(ctx, 'C15.one-shot', ['bumble.keys'])
 
 
+def namespace_resolution(ctx):
+    """Which part of the file a store works on is decided in one place, load(): it may adopt the file's only namespace for
+    the default store.  Every accessor uses the key map load() returns; none indexes the database by self.namespace itself
+    (get() would then look elsewhere than update() / get_all() / delete())."""
+    R, p = ctx.r, ctx.p
+    rule = 'C15.namespace-resolution'
+    ci = p.cls('bumble.keys.JsonKeyStore')
+    if ci is None:
+        R.bad(rule, 'bumble.keys.JsonKeyStore', 'anchor missing')
+        return
+    n = 0
+    for name, fn in sorted(ci.methods.items()):
+        if name in ('__init__', 'load', 'from_device'):
+            continue
+        uses = [x for x in walk_local(fn) if isinstance(x, ast.Attribute) and dotted(x) == 'self.namespace']
+        keyed = []
+        for u in uses:
+            par = getattr(u, '_parent', None)
+            if isinstance(par, ast.Subscript) and par.slice is u:
+                keyed.append(u)
+            if isinstance(par, ast.Call) and u in par.args and call_attr(par) in ('get', 'setdefault', 'pop'):
+                keyed.append(u)
+        loads = [c for c in calls_in(fn) if dotted(c.func) == 'self.load']
+        if loads or uses:
+            n += 1
+        R.check(not keyed, rule, f'bumble.keys.JsonKeyStore.{name}', 'works on the key map returned by load()' if loads else 'does not index the database',
+                f'{name}() indexes the database by self.namespace itself instead of using the key map load() resolved: for a default-namespace store that adopted the file\'s only namespace, {name}() reads / writes another place than the other accessors', p.loc(fn))
+    R.check(n >= 4, rule, 'bumble.keys.JsonKeyStore | accessors', f'{n} accessors go through load()', f'only {n} accessors found')
+
+
 RULES = [
+    ('C15.namespace-resolution', namespace_resolution),
     ('C15.one-shot', one_shot_rule),
     ('C15.walrus', walrus_rule),
     ('C15.zero-valid', zero_valid_rule),
